@@ -234,7 +234,7 @@ Qed.
 Lemma Post_run_action s a s' o : act_ok a ->
   run_action cap lower c r disc s a = (s', o) -> Good s -> Post s' o.
 Proof.
-  intros Ha H [I K]. destruct a as [status headers exc|data|e|i isv v]; cbn [run_action] in H.
+  intros Ha H [I K]. destruct a as [status headers exc|data|e|i isv v|status headers exc]; cbn [run_action] in H.
   - pose proof (start_response_frame lower (fst s) status headers exc) as F. cbn zeta in F.
     pose proof (start_response_clean lower (fst s) status headers exc) as C.
     destruct (start_response lower (fst s) status headers exc) as [t o1]. inversion H; subst. clear H.
@@ -244,6 +244,13 @@ Proof.
   - eapply Post_task_write; eauto. split; auto.
   - inversion H; subst. split; auto; discriminate.
   - inversion H; subst. split; auto.
+  - (* a swallowed refusal: the task left behind is clean whatever start_response raised *)
+    pose proof (start_response_frame lower (fst s) status headers exc) as F. cbn zeta in F.
+    pose proof (start_response_clean lower (fst s) status headers exc) as C.
+    destruct (start_response lower (fst s) status headers exc) as [t o1]. inversion H; subst. clear H.
+    cbn [fst] in *. destruct F as (F1 & _ & F3 & _). destruct s as [t0 ch]. cbn [fst snd] in *.
+    split. eapply Inv_task_only; eauto. intros _. unfold Chk in *. cbn [fst] in *.
+    intro Hx. rewrite F1. apply K. rewrite <- F3. exact Hx.
 Qed.
 
 Lemma Post_run_actions l : forall s s' o, Forall act_ok l ->
